@@ -60,6 +60,12 @@ def states(tier, seed):
         out.append({"rel": "R12", "kind": kind, "process": proc, "pto": pto, "ptodis": ptodis, "scheme": sc, "target": "proton", "Q2": 30.0})
         if sc.startswith("FONLL"):
             out.append({"rel": "R3", "kind": kind, "process": proc, "pto": pto, "ptodis": ptodis, "scheme": sc, "heavyness": "total", "target": "proton", "Q2": 30.0})
+    # non-default beam / electroweak options (weights change, the partitions must not)
+    for kind, sc, rl in itertools.product(["F2", "F3", "g4"], ["ZM-VFNS", "FFNS3", "FONLL-FFNS4"], ["R12", "R4"]):
+        c = {"rel": rl, "kind": kind, "process": "NC", "pto": 1, "scheme": sc, "target": "iron", "Q2": 30.0, "obscard": {"PolarizationDIS": -0.6, "PropagatorCorrection": 0.2}, "projectile": "positron", "theory": {"SIN2TW": 0.4, "MZ": 30.0}}
+        if rl == "R4":
+            c["heavyness"] = "total"
+        out.append(c)
     # R3
     fs = FONLL_SCHEMES if tier == "thorough" else ["FONLL-FFNS3", "FONLL-FFNS4", "FONLL-FFN03"]
     for kind, proc, pto, sc, hv, q2 in itertools.product(SF_KINDS, PROCS, ptos, fs, ["total", "charm", "bottom", "light"], q2s):
@@ -143,7 +149,7 @@ def _r3(cell):
     outs = {}
     for part in ("full", "massless", "massive"):
         c = dict(cell)
-        c["theory"] = {"FONLLParts": part}
+        c["theory"] = dict(cell.get("theory", {}), FONLLParts=part)
         out, status = rel.try_run(c, {name: _kins(cell["Q2"])})
         if status != "ok":
             return _result([], False, status, 1, {"n_" + status.split(":")[0]: 1})
@@ -171,7 +177,7 @@ def _r4(cell):
     outs = {}
     for ch in ["d", "u", "s", "c", "b", "t", None, "all"]:
         c = dict(cell)
-        c["obscard"] = {"NCPositivityCharge": ch}
+        c["obscard"] = dict(cell.get("obscard", {}), NCPositivityCharge=ch)
         out, status = rel.try_run(c, {name: _kins(cell["Q2"])})
         if status != "ok":
             return _result([], False, status, 1, {"n_" + status.split(":")[0]: 1})
